@@ -17,6 +17,12 @@
 //	    g:s=<r0>,<r1>,<r2>,<r3>/<LocateAll(g,s,3) joined by +>   (node name, U = unknown shard, N = no nodes),
 //	    then S=<String() entries sorted by key>. `+`/`*`/`-` with an empty name are events for a node without a name.
 //	shard <n> <keyhex>                     Hash, ShardID(key,n), TraceShardID(key,n)
+//	spec <s|m> <n> <name> <schema> <entity> <shardingkey|-> <spec|-|.> <specwrite> <refwrite>
+//	                                      stream/measure write routed by the liaison (streamService/measureService.navigate):
+//	                                      once with the client's spec and `specwrite` (laid out like the spec), once without a
+//	                                      spec and `refwrite` (laid out like the schema). schema/spec: `fa:t0,t1/fb:t2`
+//	                                      (`-` no spec, `.` spec without families); writes: `TV,TV/TV` (`.` = family without tags).
+//	                                      output: <shard> <entity values> for each of the two
 //	loc <n> <k|-> <subjecthex> <TV>…       Locate/ApplyLocators over two different tag-family layouts;
 //	                                      sharding key = first k entity tags (`-` = no sharding-key locator)
 package main
@@ -346,11 +352,103 @@ func locate(variant int, subject string, tvs []*modelv1.TagValue, k int, n uint3
 	return strconv.FormatUint(uint64(id), 10)
 }
 
+func parseFamilies(s string) []liaisongrpc.VerifC16Family {
+	var out []liaisongrpc.VerifC16Family
+	for _, fam := range strings.Split(s, "/") {
+		p := strings.SplitN(fam, ":", 2)
+		if len(p) != 2 {
+			panic("bad family " + fam)
+		}
+		f := liaisongrpc.VerifC16Family{Name: p[0]}
+		if p[1] != "" {
+			f.Tags = strings.Split(p[1], ",")
+		}
+		out = append(out, f)
+	}
+	return out
+}
+
+func parseWrite(s string) []*modelv1.TagFamilyForWrite {
+	var out []*modelv1.TagFamilyForWrite
+	for _, fam := range strings.Split(s, "/") {
+		fw := &modelv1.TagFamilyForWrite{}
+		if fam != "." {
+			for _, t := range strings.Split(fam, ",") {
+				fw.Tags = append(fw.Tags, parseTV(t))
+			}
+		}
+		out = append(out, fw)
+	}
+	return out
+}
+
+func showTV(tv *modelv1.TagValue) string {
+	switch v := tv.GetValue().(type) {
+	case *modelv1.TagValue_Null:
+		return "N"
+	case *modelv1.TagValue_Str:
+		return "S" + drv.Hex([]byte(v.Str.GetValue()))
+	case *modelv1.TagValue_BinaryData:
+		return "B" + drv.Hex(v.BinaryData)
+	case *modelv1.TagValue_Int:
+		return "I" + strconv.FormatInt(v.Int.GetValue(), 10)
+	}
+	return "?"
+}
+
+func showNav(name string, evs pbv1.EntityValues, id uint64, err error) string {
+	if err != nil {
+		return "ERR -"
+	}
+	if len(evs) == 0 || evs[0].GetStr().GetValue() != name {
+		return "BAD-SUBJECT -"
+	}
+	vs := make([]string, 0, len(evs))
+	for _, ev := range evs[1:] {
+		vs = append(vs, showTV(ev))
+	}
+	if len(vs) == 0 {
+		return strconv.FormatUint(id, 10) + " -"
+	}
+	return strconv.FormatUint(id, 10) + " " + strings.Join(vs, ",")
+}
+
+func handleSpec(f []string) string {
+	if len(f) != 10 {
+		return "bad-op"
+	}
+	kind, n, name := f[1][0], u32(f[2]), f[3]
+	var schemaFams []*databasev1.TagFamilySpec
+	for _, fam := range parseFamilies(f[4]) {
+		fs := &databasev1.TagFamilySpec{Name: fam.Name}
+		for _, t := range fam.Tags {
+			fs.Tags = append(fs.Tags, &databasev1.TagSpec{Name: t})
+		}
+		schemaFams = append(schemaFams, fs)
+	}
+	entity := strings.Split(f[5], ",")
+	var sk []string
+	if f[6] != "-" {
+		sk = strings.Split(f[6], ",")
+	}
+	hasSpec := f[7] != "-"
+	var spec []liaisongrpc.VerifC16Family
+	if hasSpec && f[7] != "." {
+		spec = parseFamilies(f[7])
+	}
+	evs, id, err := liaisongrpc.VerifC16Navigate(kind, n, name, schemaFams, entity, sk, hasSpec, spec, parseWrite(f[8]))
+	a := showNav(name, evs, uint64(id), err)
+	evs, id, err = liaisongrpc.VerifC16Navigate(kind, n, name, schemaFams, entity, sk, false, nil, parseWrite(f[9]))
+	return a + " " + showNav(name, evs, uint64(id), err)
+}
+
 func handle(f []string) string {
 	if len(f) == 0 {
 		return "bad-op"
 	}
 	switch f[0] {
+	case "spec":
+		return handleSpec(f)
 	case "sel", "sels":
 		return handleSel(f)
 	case "shard":
